@@ -533,6 +533,9 @@ MALFORMED = ["a**", "*a", "(a", "a)", "(*a)", "a|*b", "a *| b", ")(", "(", ")", 
 
 
 def run(ctx):
+    import time
+    t0 = time.time()
+    timing = ctx.extra.setdefault("timing_s", {})
     sr = impl()
     orc = Oracle()
     rng = ctx.rng
@@ -584,7 +587,9 @@ def run(ctx):
         pmeta.append(s)
         ctx.count(1, key=("parse", s) if code == 0 and a is not None else None, bucket="parser:ok" if code == 0 else "parser:error")
         # independent parser: same language? (checked through the matcher below for the enumerated ones)
+    timing["parser_cases"] = round(time.time() - t0, 1)
     bad = ctx.coq_check_cases("parse", imports, "chk_parse", pcases, shard=1500)
+    timing["parser_coq"] = round(time.time() - t0, 1)
     if bad:
         ctx.obligation("corr:parse_regex agrees with the model parser", False, "corr-shard",
                        "differs on %r" % [pmeta[i] for i in bad[:8]])
@@ -677,6 +682,7 @@ def run(ctx):
             fails = oracle_check(orc, r, obs)
             if fails:
                 oracle_fail[idx] = fails
+    timing["observe_and_oracle"] = round(time.time() - t0, 1)
     ctx.extra["oracle_patterns"] = n_oracle
     ctx.exhaustive = True
 
@@ -695,6 +701,7 @@ def run(ctx):
     ctx.note("working tree follows empty transitions: %s (%d of %d cases differ from the Directed model, %d of those also from the Symmetric model)"
              % (ctx.extra["eps_mode_of_working_tree"], len(bad_dir), len(coq_cases), len(bad_sym)))
 
+    timing["matcher_coq"] = round(time.time() - t0, 1)
     # ---- classify
     reported = 0
     bad_dir_set, bad_sym_set = set(bad_dir), set(bad_sym)
